@@ -136,7 +136,7 @@ impl Property for C06 {
         "expression strings x a pool of accepted documents and generated documents (PIs, namespaces, DTD-defaulted and #REQUIRED attributes, unparsed entities, CDATA and references, a doubling entity chain): \
          (a) token soup over the XPath alphabet incl. variable references, id(), processing-instruction('t'), unknown functions, axis names, odd numbers, unbalanced quotes and brackets; \
          (b) spellings of generated ASTs with 12% deliberately erroneous sub-expressions (variables, unknown functions, wrong arity, wrong argument types); (c) character-level mutants \
-         of valid spellings; (d) sized families: nested parentheses (plain and continued at every level) / function calls / predicates / filter predicates, operand and union chains, long paths, fan-out-and-return step chains (child/parent, descendant-or-self, siblings, ancestor/descendant), chains of '//' steps on a document of 2n elements nested in each other, runs of '-' and '..', \
+         of valid spellings; (d) sized families: nested parentheses (plain and continued at every level) / function calls / predicates / filter predicates, operand and union chains, long paths, fan-out-and-return step chains (child/parent, descendant-or-self, siblings, ancestor/descendant), chains of '//' steps on a document of 2n elements nested in each other, runs of '-' and '..', every kind of context node (incl. DTD-supplied attributes and namespace nodes) x every axis and x absolute paths inside its predicate, \
          unclosed brackets, huge numbers, many arguments. Oracle: in a worker process xml_xpath::query and the formatting of its result must return: a panic is caught and keyed by its \
          site, a worker death or an exhausted CPU budget (8 s) is attributed to the announced case; in addition '$v' must be an error, id() an error or an empty node-set, and '/..' \
          an error or an empty node-set. Non-trivial = the expression parsed and evaluation ran (a value or an evaluation error), or the case is a family member; distinct by (document, expression)."
@@ -224,6 +224,22 @@ impl Property for C06 {
         for (i, _) in DOCS.iter().enumerate() {
             for e in ["$v", "$x:v + 1", "id('x')", "id(//a)", "//a[id('1')]", "/..", "/../a", "//@*/..", "//@*/../..", "//namespace::*/..", "processing-instruction('p')", "//processing-instruction('p2')", "string(//@d)", "string(/)", "//@r", "count(//@*)", "//text()[1]", "sum(//a)", "/r/@a", "string(/r/@a)", "string-length(/)"] {
                 v.push(json!({"doc": i, "expr": e, "_labels": ["hand-written"], "_nontrivial": true}));
+            }
+        }
+        // every kind of context node x every axis, and absolute paths evaluated from it (inside a predicate the context
+        // node is an attribute - written or supplied by the DTD -, a namespace node, a text node, a comment, a PI ...)
+        const CONTEXTS: &[&str] = &["//@*", "//namespace::*", "//text()", "//comment()", "//processing-instruction()", "//*", "/", "//@d", "//@r"];
+        const AXES: &[&str] = &["ancestor", "ancestor-or-self", "attribute", "child", "descendant", "descendant-or-self", "following", "following-sibling", "namespace", "parent", "preceding", "preceding-sibling", "self"];
+        const FROM_ROOT: &[&str] = &["/", "//*", "/*/@*", "/r/..", "//b = .", ". = /r/@a", "count(//node()) > 0", "/descendant::node()[1]", "string(/) = ."];
+        for (i, _) in DOCS.iter().enumerate() {
+            for c in CONTEXTS {
+                for a in AXES {
+                    v.push(json!({"doc": i, "expr": format!("{}/{}::node()", c, a), "_labels": ["context-x-axis"], "_nontrivial": true}));
+                    v.push(json!({"doc": i, "expr": format!("count({}[{}::node()])", c, a), "_labels": ["context-x-axis"], "_nontrivial": true}));
+                }
+                for p in FROM_ROOT {
+                    v.push(json!({"doc": i, "expr": format!("{}[{}]", c, p), "_labels": ["absolute-path-from-context"], "_nontrivial": true}));
+                }
             }
         }
         v.extend(crate::engine::regress_cases("C06"));
